@@ -27,7 +27,7 @@ from vf.refs import http_ref as H
 ID = 'C13'
 LEVEL = 'exploration'
 ALL_EXHAUSTIVE = False
-TOKENS = ['/', '//', '.', '..', '%2e', '%2e%2e', '%2f', '%00', '?', '#', 'a.txt', 'sub', 'b.txt', 'index.html', '.hidden',
+TOKENS = ['/', '//', '.', '..', '%2e', '%2e%2e', '%2f', '%00', '?', '#', 'a.txt', 'sub', 'b.txt', 'index.html', '.hidden', 'link',
           'secret.txt', 'public-evil', 'x.txt', 'public', 'public.txt', 'nonexistent']
 RULE = ('paths = "/" + concatenation of tokens from %r; every path of <= 4 tokens (quick) / <= 5 tokens (thorough) is '
         'enumerated, longer ones (<= 12 tokens) are drawn by Hypothesis; --min-compression-length in {0, 20, 10^6}. '
@@ -43,6 +43,7 @@ FILES = {
     'secret.txt': b'SECRET-UNIQUE-e1f0-must-never-leave',
     'public-evil/x.txt': b'EVIL-UNIQUE-4c4c-sibling-directory',
     'public.txt': b'SIBLING-FILE-UNIQUE-8a8a-name-extends-the-root-name',
+    'public/sub/deep/c.txt': b'C-TXT-UNIQUE-33aa-deep-inside',
 }
 _T: Dict[str, Any] = {}
 _FLAGS: Dict[Any, Any] = {}
@@ -56,6 +57,9 @@ def tree() -> str:
             os.makedirs(os.path.dirname(p), exist_ok=True)
             with open(p, 'wb') as f:
                 f.write(data)
+        # a directory symlink inside the root whose target lies deeper than the link itself: after it, '..' means something else
+        # to the file system (resolves the link first) than to a textual normalisation of the path
+        os.symlink(os.path.join('sub', 'deep'), os.path.join(top, 'public', 'link'))
         _T.update(pid=os.getpid(), top=top)
         _FLAGS.clear()
         import atexit
@@ -182,11 +186,42 @@ def shards(tier: str) -> List[Dict[str, Any]]:
                     'kind': 'exh', 'lens': [maxlen], 'first': t})
     for i in range(4 if q else 16):
         out.append({'name': 'sampled-%d' % i, 'kind': 'sampled', 'examples': 700 if q else 12000})
+    out.append({'name': 'symlink-family', 'kind': 'symlink'})
+    return out
+
+
+def symlink_paths() -> List[List[str]]:
+    """Paths that walk through the directory symlink `link` (-> sub/deep) and then upwards: /link/c.txt, /link/../b.txt,
+    /link/../../a.txt ... up to four '..' and every file name of the tree."""
+    names = ['c.txt', 'b.txt', 'a.txt', 'index.html', 'secret.txt', 'public.txt', 'sub', 'public', 'public-evil']
+    out = []
+    for ups in range(0, 5):
+        for first in ('link', 'link/.', 'sub/deep'):
+            for name in names:
+                toks: List[str] = []
+                for part in first.split('/'):
+                    toks += [part, '/']
+                for _ in range(ups):
+                    toks += ['..', '/']
+                toks.append(name)
+                out.append(toks)
+                if name in ('public', 'sub', 'public-evil'):
+                    out.append(toks + ['/', {'public': 'a.txt', 'sub': 'b.txt', 'public-evil': 'x.txt'}[name]])
     return out
 
 
 def run_shard(spec: Dict[str, Any], seed: int, acc: Any) -> None:
     try:
+        if spec['kind'] == 'symlink':
+            for toks in symlink_paths():
+                for mcl in (20, 10 ** 6):
+                    c = {'tokens': list(toks), 'mcl': mcl, 'with_query': True}
+                    vs, info = evaluate(c)
+                    acc.case(c, bool('..' in toks), labels=('symlink-family', 'inside' if info['inside'] else 'outside', 'code:%s' % info['code']), key=''.join(toks) + ':%d' % mcl)
+                    for (cl, ft, ob, ex) in vs:
+                        acc.fail(c, cl, ft, ob, ex)
+            acc.exhaustive_parts.append('symlink family: {link, link/., sub/deep} x 0..4 parent steps x 9 names (+ one level below directories)')
+            return
         if spec['kind'] == 'exh':
             for n in spec['lens']:
                 firsts = [spec['first']] if spec['first'] is not None else TOKENS
